@@ -247,6 +247,18 @@ KEY_INSDEL = "rowswitch-onto-expired-deleted-object-whose-row-vanished-loses-ins
 
 
 def run_history(case):
+    """an exception escaping from a session operation on valid state is itself a defect"""
+    import traceback
+
+    try:
+        return _run_history(case)
+    except Exception as e:
+        tb = traceback.extract_tb(e.__traceback__)
+        where = ["%s:%d" % (os.path.basename(f.filename), f.lineno) for f in tb if "sqlalchemy" in f.filename][-3:]
+        return "crash:" + type(e).__name__, [("unexpected-exception", "%s: %s at %s" % (type(e).__name__, str(e)[:200], where))]
+
+
+def _run_history(case):
     """Execute one history on real sessions.  Returns (impl_line, problems) where
     problems is a list of (key, detail) found by the reference oracle."""
     from sqlalchemy import inspect
